@@ -450,7 +450,7 @@ func mutantsOf(rng *rand.Rand, idx int, orig *TxInfo, g *Gen, st *MState, chainI
 
 func checkC03(c *Ctx) {
 	c.rule = "valid transactions of all eight types are signed with the repository's own helper; from each, mutants are derived (every scalar field +-1, wrap candidates, sender/receiver swapped or bit-flipped, type changed, per-type payload field edits, signature bit flips/truncation/extension/recovery-id flip/signature of another transaction, signatures for other chain ids, foreign signers, plus benign re-encodings); blocks = shuffled mutants followed by the untouched originals. Oracle: an independent verifier (own RLP pre-image + chain-id prefix from the property text, sha256, public-key recovery, address derivation) must accept every transaction that returned code 0; the originals must still succeed; an erasure twin that executes only the originals must end in the same semantic state. distinct = distinct (transaction type, mutation) pairs delivered"
-	n := c.N(12, 300)
+	n := c.N(24, 300)
 	c.Parallel(n, 0, func(i int) {
 		rng := c.Rng("c03", i)
 		o := twinOpts(c, "C03", i)
